@@ -146,6 +146,10 @@ def run_property(modname, tier, seed=0, nproc=None, only=None):
     mod = importlib.import_module(modname)
     pid = mod.PROPERTY
     cfgs = mod.configs(tier)
+    if tier == 'thorough':
+        # second solver: a few discharged obligations per configuration are re-decided with cvc5
+        for c in cfgs:
+            c.setdefault('engine', {}).setdefault('cross_solver', 2)
     # import the code under test once, before forking (workers inherit the modules)
     import logging
     logging.disable(logging.CRITICAL)
